@@ -7,6 +7,7 @@ import (
 
 	"ti/base"
 	"ti/cmd"
+	"ti/eval/method_evaluator"
 )
 
 func b01(b bool) string {
@@ -227,7 +228,35 @@ func undash(s string) string {
 	return s
 }
 
+// ancestor <caller node> <defined node> | edges        node = frame~class~include~extend, edge = cf~cc~pf~pc~inc~ext
+// the protected-method check: caller == defined, or defined among the caller's ancestors (isAncestorNode)
+func opAncestor(args string) string {
+	parts := strings.Split(args, " | ")
+	q := strings.Fields(parts[0])
+	node := func(f string) base.ClassNode {
+		x := strings.Split(f, "~")
+		return base.ClassNode{Frame: dash(x[0]), Class: dash(x[1]), IsInclude: x[2] == "1", IsExtend: x[3] == "1"}
+	}
+	for k := range base.ClassInheritanceMap {
+		delete(base.ClassInheritanceMap, k)
+	}
+	if len(parts) > 1 {
+		for _, e := range strings.Split(strings.TrimSpace(parts[1]), ";") {
+			if e == "" {
+				continue
+			}
+			f := strings.Split(e, "~")
+			child := base.ClassNode{Frame: dash(f[0]), Class: dash(f[1])}
+			parent := base.ClassNode{Frame: dash(f[2]), Class: dash(f[3]), IsInclude: f[4] == "1", IsExtend: f[5] == "1"}
+			base.ClassInheritanceMap[child] = append(base.ClassInheritanceMap[child], parent)
+		}
+	}
+	caller, defined := node(q[0]), node(q[1])
+	return b01(caller == defined || method_evaluator.VerifIsAncestorNode(caller, defined))
+}
+
 func init() {
 	ops["lookup"] = opLookup
 	ops["addparent"] = opAddParent
+	ops["ancestor"] = opAncestor
 }
